@@ -103,6 +103,11 @@ func genProtectedOps(rng *rand.Rand, g *GenesisSpec, nBlocks int) []Op {
 		n := rng.IntN(7)
 		for i := 0; i < n; i++ {
 			if pcTraffic && rng.IntN(3) == 0 {
+				if rng.IntN(4) == 0 {
+					// staking transfer to oneself: the precompile re-delegates to the weakest of several tied validators
+					ops = append(ops, Op{K: "pc", W: rng.IntN(g.Wallets), To: "staking", Mut: "transfer", A: []string{"caller", pick(rng, "1000", "1000000000")}})
+					continue
+				}
 				ops = append(ops, genPcCall(rng, g, pick(rng, "", "", "c", "d")))
 				continue
 			}
